@@ -5,7 +5,12 @@ steps of the binary GCD -- `lin` (u*f+v*g mod q) and `lindiv31abs`
 (|a*f+b*g|/2^31 with sign) -- for ALL operands and update factors, on the
 real optimized IR (engine L, integer encoding, abstract partial products),
 one obligation per sign case of (f,g).  End-to-end convergence of the
-approximate GCD (x/y*y == x) is a proof from the literature, outside."""
+approximate GCD (x/y*y == x) is a proof from the literature, outside.
+
+Two more groups live in their own modules: `batch_invert` over an abstract
+field with zeros (engine P on the MIR, props/C12_batch.py) and the tails of
+the square-root functions after the exponentiation (engine L, staged cuts,
+props/C12_sqrt.py).  `--only lin|batch|sqrt[,tag..]` selects groups."""
 import time
 from engines.llsym.build import build, Driver
 from engines.llsym.intenc import IntEnc, Lin
@@ -241,40 +246,96 @@ def check_lindiv(built, tag, sf, sg, timeout):
     return [ob.unknown(why, "z3-int", res.seconds)]
 
 
+GROUPS = ("lin", "batch", "sqrt")
+
+
 def run(tier, only=None):
+    """--only accepts group names (lin, batch, sqrt) and/or field tags (gf25519, gf448, ...; for batch also the
+    backend file name, e.g. modint); no group name = all groups"""
     t0 = time.time()
-    tags = [t for t in HOSTS if (tier == "thorough" or t in QUICK) and (not only or t in only)]
+    only = list(only or [])
+    groups = [g for g in GROUPS if g in only] or list(GROUPS)
+    keys = [k for k in only if k not in GROUPS]
+    from . import C12_batch as CB, C12_sqrt as CS
+    tags = [t for t in HOSTS if (tier == "thorough" or t in QUICK) and (not keys or t in keys)] if "lin" in groups else []
     ds = []
     for t in tags:
         ds += lin_drivers(t)
+    merr = None
+    mir = None
+    if "batch" in groups:
+        import threading
+        from engines.polyid.build import dump_mir
+        box = {}
+
+        def _mir():
+            try:
+                box["mir"] = dump_mir()
+            except Exception as e:       # reported below as a machinery error
+                box["err"] = "%s: %s" % (type(e).__name__, e)
+        th = threading.Thread(target=_mir)
+        th.start()
+        ds += CB.static_drivers(tier, only)
+    if "sqrt" in groups:
+        ds += CS.drivers(tier, only)
     built = build(ds, tag="C12-default")
+    if "batch" in groups:
+        th.join()
+        if "mir" in box:
+            mir = CB.patch_mir(box["mir"][0])
+            log("[C12] MIR dump %.1fs" % box["mir"][1])
+        else:
+            merr = "MIR dump failed: %s" % box.get("err")
     timeout = 120 if tier == "quick" else 900
     items = [(k, t, sf, sg) for k in ("lin", "lindiv") for t in tags for sf in (0, 1) for sg in (0, 1)
-             if not (k == "lindiv" and t == "gf448" and (sf or sg)) or only]
+             if not (k == "lindiv" and t == "gf448" and (sf or sg)) or keys]
+    if mir is not None:
+        items += [("batch",) + w for w in CB.work_items(mir, tier, only)]
+    if "sqrt" in groups:
+        items += [("sqrt", t, k) for t in CS.tags_for(tier, only) for k in CS.kinds(t)]
+    # long items first
+    items.sort(key=lambda it: 0 if (it[0] == "batch" and it[4] > 8) else 1)
 
     def work(it):
         if it[0] == "lin":
             return check_lin(built, it[1], it[2], it[3], timeout)
-        return check_lindiv(built, it[1], it[2], it[3], timeout)
+        if it[0] == "lindiv":
+            return check_lindiv(built, it[1], it[2], it[3], timeout)
+        if it[0] == "batch":
+            return CB.check_one(mir, built, tier, *it[1:])
+        return CS.check_tail(built, F.BYTAG[it[1]], it[2], timeout)
     res = pmap(work, items, nproc=NCPU, timeout=timeout * 10)
-    obs, merr = [], None
+    obs = []
     for it, (st, val) in zip(items, res):
         if st == "ok":
             obs.extend(val)
         else:
-            o = Obligation("default:%s.%s[%d,%d]" % (it[1], it[0], it[2], it[3]), "L")
+            if it[0] == "batch":
+                nm = "default:%s.batch_invert[n=%d]" % (it[2].rsplit("/", 1)[-1][:-3], it[4])
+            elif it[0] == "sqrt":
+                nm = "default:%s.%s" % (it[1], it[2])
+            else:
+                nm = "default:%s.%s[%d,%d]" % (it[1], it[0], it[2], it[3])
+            o = Obligation(nm, "P" if it[0] == "batch" else "L")
             o.unknown("%s: %s" % (st, str(val)[-400:]))
             obs.append(o)
             if "MachineryError" in str(val):
                 merr = str(val)[-600:]
     built.close()
+    bounds = {"lin": "all u, v (all limb patterns); all f, g with |f|,|g| <= 2^62, one obligation per sign case",
+              "lindiv31abs": "all a, b in [0, 2^(bits-1)) as in the GCD; |f|,|g| <= 2^31 per sign case; exact-division and fit preconditions as documented",
+              "batch_invert": CB.BOUNDS, "sqrt": CS.BOUNDS}
     return finish("C12", tier, obs, t0,
                   functions_encoded=sorted(set(fn for o in obs for fn in o.functions)),
-                  bounds={"lin": "all u, v (all limb patterns); all f, g with |f|,|g| <= 2^62, one obligation per sign case",
-                          "lindiv31abs": "all a, b in [0, 2^(bits-1)) as in the GCD; |f|,|g| <= 2^31 per sign case; exact-division and fit preconditions as documented"},
+                  bounds={k: v for k, v in bounds.items() if (k in ("lin", "lindiv31abs") and "lin" in groups)
+                          or (k == "batch_invert" and "batch" in groups) or (k == "sqrt" and "sqrt" in groups)},
+                  stubs=(["set_div / invert inside batch_invert: uninterpreted inverse with inv(b)*b = 1 for b != 0, inv(0) = 0"]
+                         if "batch" in groups else None),
                   assumptions=["LLVM IR semantics as implemented in engines/llsym (validated natively each run)",
-                               "abstract partial products (sound over-approximation)"],
-                  outside=["end-to-end x/y*y == x, Legendre symbol value, square roots: convergence of the approximate "
-                           "binary GCD and exponentiation chains are not bounded solver questions (DESIGN 3 C12)",
-                           "lindiv31abs of GF448 with a negative factor (no certificate within budget); montylin / lindiv31abs of the Montgomery types; batch_invert; binary-field inversion/sqrt/trace: not posed"],
+                               "abstract partial products (sound over-approximation)"]
+                  + (CB.ASSUMPTIONS if "batch" in groups else []) + (CS.ASSUMPTIONS if "sqrt" in groups else []),
+                  outside=["end-to-end x/y*y == x and the Legendre symbol value: convergence of the approximate "
+                           "binary GCD is not a bounded solver question (DESIGN 3 C12)",
+                           "lindiv31abs of GF448 with a negative factor (no certificate within budget); montylin / lindiv31abs of the Montgomery types; binary-field inversion: not posed"]
+                  + CB.OUTSIDE + CS.OUTSIDE,
                   machinery_error=merr)
